@@ -18,3 +18,4 @@ pub mod c05;
 pub mod c18;
 pub mod c19;
 pub mod c10;
+pub mod c03;
